@@ -232,6 +232,8 @@ class C03(Check):
         for i in range(0, len(self.hostile), 8):
             cs.append({"kind": "hostile", "lo": i, "hi": min(i + 8, len(self.hostile))})
         cs.append({"kind": "pairs"})
+        for i in range(0, len(self.hostile), 16):
+            cs.append({"kind": "socket", "lo": i, "hi": min(i + 16, len(self.hostile))})
         return cs
 
     # ------------------------------------------------------------------
@@ -307,7 +309,47 @@ class C03(Check):
                         self.run_line(label, line, v1, pending, stats, vs)
         elif k == "pairs":
             self.pairs(stats, vs)
+        elif k == "socket":
+            for label, line in self.hostile[case["lo"]:case["hi"]]:
+                self.socket_line(label, line, stats, vs)
+        elif k == "one-socket":
+            self.socket_line(case["label"], dict(self.hostile)[case["label"]], stats, vs)
         return vs
+
+    def socket_line(self, label, line, stats, vs):
+        """the same line through the unmodified socketserver stack on the virtual network,
+        followed by a second connection that must still be served"""
+        from .. import vserver
+        if b"\n" in line.strip(b"\n") or len(line) > 300000:
+            return
+        stats.evaluations += 1
+        dev, w, proto = self.fresh(False, False)
+        follow = b'{"command": "version"}\n'
+        net, info, crashed = vserver.run_server(proto, w, [[line + b"\n"], [follow]], None)
+        outs = [c.conn.out if c.conn is not None else None for c in net.clients]
+        stats.observe(("socket", label.split("-")[0], outs[0][:30] if outs[0] else None, info["early_shutdown"]))
+
+        def bad(clause, observed):
+            vs.append(Violation("C03", "C03:socket-%s" % clause, {"kind": "one-socket", "label": label},
+                                None, observed, "one reply line; the next connection is served",
+                                "socket"))
+        if net.sched.deadlock or net.sched.livelock or crashed or net.sched.errors:
+            bad("server-crash-or-deadlock", {"deadlock": net.sched.deadlock, "crashed": crashed,
+                                             "errors": net.sched.errors[:2]})
+            return
+        o = outs[0]
+        ok = False
+        if o is not None and o.endswith(b"\n") and o.count(b"\n") == 1:
+            try:
+                r = json.loads(o.decode())
+                ok = isinstance(r, dict) and isinstance(r.get("errorcode"), int) and not isinstance(r.get("errorcode"), bool)
+            except Exception:
+                ok = False
+        if not ok:
+            bad("unanswered", {"label": label, "reply": o[:200] if o else o})
+        if info["early_shutdown"] or outs[1] != b'{"errorcode": 0, "version": 5}\n':
+            bad("next-connection-not-served", {"label": label, "early_shutdown": info["early_shutdown"],
+                                               "second_reply": outs[1]})
 
     def collect_c02(self, sub, docs):
         c = self.c02
